@@ -23,6 +23,11 @@ inductive VE (V E : Type) where
   | err (e : E)
   deriving DecidableEq, Repr, Inhabited
 
+/-- apply the export function of the datatype to the value (what goes on the wire) -/
+def VE.map {V X E : Type} (f : V → X) : VE V E → VE X E
+  | .val v => .val (f v)
+  | .err e => .err e
+
 /-- the cache entry: `Parameter.value, .readerror, .timestamp, .omit_unchanged_within` -/
 structure Entry (V E : Type) where
   value : V
